@@ -320,6 +320,174 @@ theorem lt_par {f : UPoly α} (hf : AllV V f) :
   rw [zero_congr hA, lc_congr hA]
   exact setCoef_par hA hC (zero_V hC) _ (lc_V hC hf)
 
+
+/-! ### division, reduction, gcd -/
+
+omit hA hC in
+theorem firstFit_mem (p : UPoly α) : ∀ (gs : List (UPoly α)) (i : Nat) (r : Nat × UPoly α),
+    firstFit p gs i = some r → r.2 ∈ gs := by
+  intro gs
+  induction gs with
+  | nil => intro i r h; cases h
+  | cons g t ih =>
+    intro i r h
+    simp only [firstFit] at h
+    split at h
+    · cases h; exact List.mem_cons_self
+    · exact List.mem_cons_of_mem _ (ih _ _ h)
+
+theorem lcQuot_par {p g : UPoly α} (hp : AllV V p) (hg : AllV V g) :
+    lcQuot F' p g = lcQuot F p g ∧ V (lcQuot F p g) := by
+  unfold lcQuot
+  have h1 := lc_V hC hp
+  have h2 := lc_V hC hg
+  rw [lc_congr hA, lc_congr hA, hA.isOne, hA.mul _ _ h1 h2, hA.inv _ h2, hA.zero]
+  split
+  · exact ⟨rfl, hC.mul _ _ h1 h2⟩
+  · cases hi : F.inv (lc F g) with
+    | none => exact ⟨rfl, hC.zero⟩
+    | some i =>
+      have := hC.inv _ i h2 hi
+      simp only [hA.mul _ _ h1 this, true_and]
+      exact hC.mul _ _ h1 this
+
+/-- every polynomial of a list has valid coefficients -/
+def AllVV (V : α → Prop) (l : List (List α)) : Prop := ∀ f ∈ l, AllV V f
+
+theorem quoRemLoop_par {gs : List (UPoly α)} (hgs : AllVV V gs) :
+    ∀ (fuel : Nat) (p : UPoly α) (qs : List (UPoly α)) (r : UPoly α),
+      AllV V p → AllVV V qs → AllV V r →
+      quoRemLoop F' gs fuel p qs r = quoRemLoop F gs fuel p qs r ∧
+      ∀ qs' r', quoRemLoop F gs fuel p qs r = some (qs', r') → AllVV V qs' ∧ AllV V r' := by
+  intro fuel
+  induction fuel with
+  | zero => intro p qs r _ _ _; exact ⟨rfl, fun _ _ h => by cases h⟩
+  | succ fuel ih =>
+    intro p qs r hp hqs hr
+    rw [quoRemLoop, quoRemLoop, isZero_congr hA]
+    split
+    · exact ⟨rfl, fun _ _ h => by cases h; exact ⟨hqs, hr⟩⟩
+    · cases hff : firstFit p gs 0 with
+      | none =>
+        simp only [removeCoef_congr hA, lc_congr hA]
+        obtain ⟨e, hv⟩ := incCoef_par hA hC hr (ld p) (lc_V hC hp)
+        rw [e]
+        exact ih _ _ _ (removeCoef_V hC hp _) hqs hv
+      | some ig =>
+        obtain ⟨i, g⟩ := ig
+        have hg : AllV V g := hgs g (firstFit_mem p gs 0 _ hff)
+        obtain ⟨e1, hv1⟩ := lcQuot_par hA hC hp hg
+        have hq : AllV V (qs.getD i (UPoly.zero F)) := by
+          rw [List.getD_eq_getElem?_getD]
+          cases h : qs[i]? with
+          | none => exact zero_V hC
+          | some q => exact hqs q (List.mem_of_getElem? h)
+        obtain ⟨e2, hv2⟩ := incCoef_par hA hC hq (ld p - ld g) hv1
+        obtain ⟨e3, hv3⟩ := subShiftScale_par hA hC hp hg (ld p - ld g) hv1
+        simp only [e1, zero_congr hA, e2, e3]
+        refine ih _ _ _ hv3 ?_ hr
+        intro f hf
+        rcases List.mem_or_eq_of_mem_set hf with h | rfl
+        · exact hqs f h
+        · exact hv2
+
+omit hC in
+theorem isZero_congr' : isZero F' = isZero F := funext (isZero_congr hA)
+
+/-- result of `QuoRem`: quotients and remainder valid -/
+def QRV (V : α → Prop) (o : Except Kind (Option (List (UPoly α) × UPoly α))) : Prop :=
+  ∀ qs r, o = .ok (some (qs, r)) → AllVV V qs ∧ AllV V r
+
+theorem quoRem_par (fuel : Nat) {f : UPoly α} {gs : List (UPoly α)} (hf : AllV V f)
+    (hgs : AllVV V gs) :
+    quoRem F' fuel f gs = quoRem F fuel f gs ∧ QRV V (quoRem F fuel f gs) := by
+  unfold quoRem
+  rw [isZero_congr' hA, zero_congr hA]
+  have hq : AllVV V (gs.map fun _ => UPoly.zero F) := by
+    intro q hq
+    obtain ⟨_, _, rfl⟩ := List.mem_map.1 hq
+    exact zero_V hC
+  obtain ⟨e, hv⟩ := quoRemLoop_par hA hC hgs fuel f _ _ hf hq (zero_V hC)
+  split
+  · exact ⟨rfl, fun _ _ h => by cases h⟩
+  · rw [e]
+    refine ⟨rfl, fun qs r h => ?_⟩
+    injection h with h
+    exact hv qs r h
+
+theorem reduceLoop_par {g : UPoly α} (hg : AllV V g) :
+    ∀ (fuel : Nat) (f : UPoly α), AllV V f →
+      reduceLoop F' g fuel f = reduceLoop F g fuel f ∧ OptV V (reduceLoop F g fuel f) := by
+  intro fuel
+  induction fuel with
+  | zero => intro f _; exact ⟨rfl, fun _ h => by cases h⟩
+  | succ fuel ih =>
+    intro f hf
+    rw [reduceLoop, reduceLoop, lc_congr hA]
+    split
+    · obtain ⟨e, hv⟩ := subShiftScale_par hA hC hf hg (ld f - ld g) (lc_V hC hf)
+      rw [e]
+      exact ih _ hv
+    · exact ⟨rfl, fun _ h => by cases h; exact hf⟩
+
+theorem reduce_par {g f : UPoly α} (hg : AllV V g) (hf : AllV V f) :
+    reduce F' g f = reduce F g f ∧ OptV V (reduce F g f) := by
+  unfold reduce
+  rw [zero_congr hA]
+  split
+  · exact ⟨rfl, fun _ h => by cases h; exact zero_V hC⟩
+  · exact reduceLoop_par hA hC hg _ f hf
+
+theorem gcdLoop_par : ∀ (fuel : Nat) (r0 r1 : UPoly α), AllV V r0 → AllV V r1 →
+    gcdLoop F' fuel r0 r1 = gcdLoop F fuel r0 r1 ∧ OptV V (gcdLoop F fuel r0 r1) := by
+  intro fuel
+  induction fuel with
+  | zero => intro r0 r1 _ _; exact ⟨rfl, fun _ h => by cases h⟩
+  | succ fuel ih =>
+    intro r0 r1 h0 h1
+    rw [gcdLoop, gcdLoop, isZero_congr hA, zero_congr hA]
+    split
+    · exact ⟨rfl, fun _ h => by cases h; exact h0⟩
+    · have hgs : AllVV V [r1] := fun f hf => by rw [List.mem_singleton] at hf; exact hf ▸ h1
+      have hqs : AllVV V [UPoly.zero F] := fun f hf => by
+        rw [List.mem_singleton] at hf; exact hf ▸ zero_V hC
+      obtain ⟨e, hv⟩ := quoRemLoop_par hA hC hgs (quoRemFuel r0) r0 _ _ h0 hqs (zero_V hC)
+      rw [e]
+      cases hq : quoRemLoop F [r1] (quoRemFuel r0) r0 [UPoly.zero F] (UPoly.zero F) with
+      | none => exact ⟨rfl, fun _ h => by cases h⟩
+      | some qr =>
+        obtain ⟨q, rem⟩ := qr
+        exact ih _ _ h1 (hv q rem hq).2
+
+theorem gcd2_par {f g : UPoly α} (hf : AllV V f) (hg : AllV V g) :
+    gcd2 F' f g = gcd2 F f g ∧ OptV V (gcd2 F f g) :=
+  gcdLoop_par hA hC _ f g hf hg
+
+theorem gcd_par {f : UPoly α} {gs : List (UPoly α)} (hf : AllV V f) (hgs : AllVV V gs) :
+    UPoly.gcd F' f gs = UPoly.gcd F f gs ∧ OptV V (UPoly.gcd F f gs) := by
+  unfold UPoly.gcd
+  refine foldl_par (OptV V) (AllV V) _ _ (fun acc g hacc hg => ?_) gs (some f) hgs
+    (fun _ h => by cases h; exact hf)
+  cases acc with
+  | none => exact ⟨rfl, fun _ h => by cases h⟩
+  | some a => exact gcd2_par hA hC (hacc a rfl) hg
+
+theorem newIdeal_par {gens : List (UPoly α)} (hg : AllVV V gens) :
+    newIdeal F' gens = newIdeal F gens ∧ OptV V (newIdeal F gens) := by
+  unfold newIdeal
+  cases gens with
+  | nil => exact ⟨rfl, fun _ h => by cases h⟩
+  | cons f gs =>
+    obtain ⟨e, hv⟩ := gcd_par hA hC (hg f List.mem_cons_self)
+      (fun g h => hg g (List.mem_cons_of_mem _ h))
+    simp only [e]
+    cases hgc : UPoly.gcd F f gs with
+    | none => exact ⟨rfl, fun _ h => by cases h⟩
+    | some d =>
+      obtain ⟨e2, hv2⟩ := normalize_par hA hC (hv d hgc)
+      simp only [Option.map_some, e2, true_and]
+      intro v h; cases h; exact hv2
+
 end Par
 end Tables
 end Algobra
